@@ -10,7 +10,7 @@ ID = 'C15'
 RULE = ('Hypothesis long frames (<=7 geos x <=14 dates, missing cells up to ~20%, optionally a geo with no rows, int/str IDs, '
         'shuffled rows, response column name, extra column) x eligibility in {none, = data, subset of data, superset with '
         'excludable extras, superset with a non-excludable extra} x a drawn ordered sub-list of the assignable geos as '
-        'geo_index (optionally with a non-assignable geo) x drawn index sets. Oracle: independent pivot, means, shares, '
+        'geo_index (optionally with a non-assignable geo; in half of the cases after the index had been set to another list and used) x drawn index sets. Oracle: independent pivot, means, shares, '
         'eligibility classes and aggregates. Non-trivial = >=2 geos and (missing cells or eligibility != data or index order != '
         'row order); distinct by spec hash.')
 BUDGET = {'quick': 1600, 'thorough': 50000}
@@ -36,7 +36,7 @@ def _spec(draw):
   panel['missing'] = miss
   elig = draw(G.eligibility_spec(panel['ids']))
   return {'panel': panel, 'elig': elig, 'params': {'iroas': 1.0, 'n_designs': 1},
-          'index': {'order_seed': draw(st.integers(0, 10 ** 6)), 'k': draw(st.integers(1, 7)), 'bad': draw(st.integers(0, 5)) == 0},
+          'index': {'order_seed': draw(st.integers(0, 10 ** 6)), 'k': draw(st.integers(1, 7)), 'bad': draw(st.integers(0, 5)) == 0, 'twice': draw(st.booleans())},
           'sets': draw(st.lists(st.lists(st.integers(0, 6), min_size=1, max_size=5), min_size=1, max_size=4))}
 
 
@@ -124,6 +124,13 @@ def run(spec):
           viol.append(('C15:unassignable-geo-accepted-in-index', dict(det, index=Lst + [bad_pool[0]])))
         except ValueError:
           cls.append('unassignable-geo-rejected')
+      if spec['index'].get('twice') and len(pool) >= 1:
+        # the index is first set to another (reversed, longer/shorter) list and used, then to the list under test
+        L0 = list(reversed(pool))[:max(1, spec['index']['k'] - 1)]
+        data.geo_index = list(L0)
+        data.aggregate_time_series({0})
+        data.aggregate_geo_share({0})
+        cls.append('index-set-twice')
       data.geo_index = list(Lst)
       a = data.geo_assignments
       want = {}
